@@ -186,3 +186,20 @@ add("C18",
     "DESIGN.md 5/C18", COMMON_TRUST + " cls(x) is modelled as the numeric embedding of x (A2); the constructor is used by its proved contract (A10).",
     "contracts on the real functions: VC generator over the Python AST + z3 for generators and affine maps (unbounded, incl. a nonlinear monotonicity lemma); real code on symbolic knots for the invariance (bounded)")
 ENGINE_V += ["C04", "C06", "C18"]
+add("C15",
+    "Engine V puts every function that writes a curve's private fields, and every public mutator built on them, under a contract for ALL curves and arguments "
+    "(a knot vector seen through npts / degree / number of distinct knots): ctrlpoints / weights / knotvector / degree setters, BaseCurve.update, BaseCurve.apply, "
+    "Curve.knot_insert, knot_remove, degree_increase, degree_decrease, each for control points present / absent x weights present / absent. Proved: "
+    "ensures INV (len(ctrlpoints) == npts == len(knotvector) - degree - 1, len(weights) == npts when present), the expected npts / degree change, and on EVERY "
+    "exceptional exit (ValueError, AssertionError, ZeroDivisionError) the three fields are unchanged; callers are checked against callee contracts (e.g. "
+    "rows(matrix) == npts(newknotvector) at each call of apply, 'the sum has the same degree' before Operations.knot_insert). This is the invariant argument for all "
+    "histories of these operations. Frame analysis over the package AST (unbounded): the fields are written only by __init__, update and the setters, no back door, "
+    "no in-place KnotVector mutator on a .knotvector attribute, operators on deep copies. Bounded part: all sequences of public operations up to a depth bound from "
+    "eight start curves (polynomial, rational, zero control weight, weights only, empty, redundant knots) - consistency, atomicity, operand integrity, partner curve "
+    "built from the same KnotVector object. Writing these contracts exposed D26-D29 (fixed).",
+    "DESIGN.md 5/C15", "Trusted: CPython. Assumed callee contracts at shape level (A11): matrix shapes of the heavy kernels (checked per shape by engine S in C04/C06), "
+    "KnotVector +/- nodes, fit_curve fills a fresh curve, find_roots refuses a wrong-length list (checked by engine B), the refitted weight function has no zero. "
+    "Aliasing between curves is decided by the frame analysis and the bounded histories, not by engine V. Rational update path: known finding D9.",
+    "contracts (representation invariant + atomic refusal) on the real mutators discharged by a VC generator over the Python AST + z3 (unbounded); frame / write-set "
+    "analysis (unbounded); exhaustive bounded histories on the real code")
+ENGINE_V += ["C15", "C01"]
